@@ -48,8 +48,9 @@ def _get_uses_of(node: ast.AST, scope: ast.AST, source: str) -> Iterable[ast.Nam
             continue
         if any(core.walk(funcdef.args, ast.arg(arg=name))):
             blacklisted_names.update(core.walk(funcdef, ast.Name))
-        for child in core.walk(funcdef, ast.Name(ctx=ast.Store, id=name)):
-            blacklisted_names.update(core.walk(child, ast.Name))
+        if any(core.walk(funcdef, ast.Name(ctx=(ast.Store, ast.Del), id=name))):
+            # The function has a local variable of that name
+            blacklisted_names.update(core.walk(funcdef, ast.Name(id=name)))
 
     # A comprehension or lambda that binds the name has a variable of its own
     for comp in core.walk(scope, (ast.ListComp, ast.SetComp, ast.GeneratorExp, ast.DictComp)):
